@@ -9,6 +9,7 @@ K  extracted model as_path (Model/AStar.v) fed with the implementation's adjacen
    than 1e-9, else validity + cost only (ties are legitimately broken differently by float rounding)."""
 from lib import *  # noqa
 import gen
+import argforms as AF
 import heapq
 from koala.lattice import Lattice, LatticeException
 from koala.flux_finder import pathfinding as pf
@@ -39,6 +40,28 @@ TOL = 1e-9
 # generators; a PathFindingError there is reported like any other (key "path-not-found-within-n_edges").
 REPORT_FULL_SEARCH_BUDGET = True
 METRICS = {"euclid": pf.straight_line_length, "periodic": pf.periodic_straight_line_length}
+
+
+# ------------------------------------------------------------------ argument forms (argforms.py)
+# start / goal / maxits / the node index of the adjacency providers are `int` by the type hints: a Python int and numpy integer
+# scalars of any width (what indexing a numpy array yields, e.g. the pairs of the greedy pairing) are the same number.  Metric
+# points: float64 arrays in any memory layout.  Form chosen from the query, so a failure replays.
+AF_INDEX = ["int", "np.int64", "np.int32", "np.int16", "np.int8", "np.uint8", "np.uint32", "np.uint64", "np.intp"]
+AF_BUDGET = ["int", "np.int64", "np.int32", "np.intp"]      # maxits: wide types only (maxits + 1 must not wrap around in numpy's fixed-width arithmetic)
+AF_POINT = ["float64", "float64+readonly", "float64+strided"]
+AF_EXCLUDED = {
+    ("path_between_*.start/goal", "0-d array"): "type hint int; a 0-d array is not hashable (dict key) -> TypeError",
+    ("straight_line_length/periodic_straight_line_length.a/b", "list/tuple"): "points are numpy arrays everywhere in koala (`a - b`); two lists raise TypeError",
+    ("straight_line_length/periodic_straight_line_length.a/b", "float32"): "the result then is a float32 (rounded to 1e-7), not comparable at the harness' 1e-9 tolerance",
+}
+
+
+def arg_forms(res, arg, value, *key):
+    for (a, f), why in AF_EXCLUDED.items():
+        AF.exclude(res, a, f, why)
+    if arg == "point":
+        return AF.choose(res, "metric.point", value, AF_POINT, *key, base=np.float64)
+    return AF.choose_scalar(res, arg, value, AF_BUDGET if arg == "path.maxits" else AF_INDEX, *key)
 
 
 # ------------------------------------------------------------------ independent restatements
@@ -196,18 +219,21 @@ def make_pairs(n, rng, all_pairs_max, n_random):
 
 
 # ------------------------------------------------------------------ evaluation
-def impl_adj(lat, kind, n):
+def impl_adj(lat, kind, n, res):
     out = []
     for a in range(n):
-        ns, es = adjacent_plaquettes(lat, a) if kind == "plaq" else vertex_neighbours(lat, a)
+        a_ = arg_forms(res, "adjacent_plaquettes.p_index" if kind == "plaq" else "vertex_neighbours.vertex_index", a, n)
+        ns, es = adjacent_plaquettes(lat, a_) if kind == "plaq" else vertex_neighbours(lat, a_)
         out.append([(int(x), int(y)) for x, y in zip(np.atleast_1d(ns), np.atleast_1d(es))])
     return out
 
 
-def run_impl(lat, kind, s, g, metric, early, maxits):
+def run_impl(lat, kind, s, g, metric, early, maxits, res):
     f = pf.path_between_plaquettes if kind == "plaq" else pf.path_between_vertices
+    s_, g_ = arg_forms(res, "path.start", s, g, kind, metric, early), arg_forms(res, "path.goal", g, s, kind, metric, early)
+    maxits_ = arg_forms(res, "path.maxits", maxits, s, g, kind, metric, early)
     try:
-        nodes, edges = f(lat, s, g, heuristic=METRICS[metric], early_stopping=early, maxits=maxits)
+        nodes, edges = f(lat, s_, g_, heuristic=METRICS[metric], early_stopping=early, maxits=maxits_)
         return ("P", [int(x) for x in nodes], [int(x) for x in edges])
     except pf.PathFindingError as e:
         return ("E", str(e))
@@ -222,7 +248,7 @@ def eval_combo(ctx, case, lat, kind, metric, pairs, rng, label, maxits=None):
     triples = own_graph(lat, kind)
     maxits = lat.n_edges if maxits is None else maxits
     posn = node_positions(lat, kind)
-    adj = impl_adj(lat, kind, n)
+    adj = impl_adj(lat, kind, n, res)
     hfun = METRICS[metric]
     # the floats the implementation's heuristic returns
     need = set()
@@ -263,7 +289,7 @@ def eval_combo(ctx, case, lat, kind, metric, pairs, rng, label, maxits=None):
     stats = res.extra.setdefault("k_stats", {"whole_path_compared": 0, "near_tie_validity_cost_only": 0, "path_lengths": {}})
     for qi, (s, g, early) in enumerate(queries):
         rcase = {"lattice": case, "kind": kind, "metric": metric, "pairs": [[s, g]], "maxits": maxits}
-        r = run_impl(lat, kind, s, g, metric, early, maxits)
+        r = run_impl(lat, kind, s, g, metric, early, maxits, res)
         m = o[f"q{qi}"]
         nontriv = (digest(case), kind, metric, s, g, early) if s != g else None
         res.count(fam + ("/early" if early else "/full"), nontrivial_key=nontriv)
@@ -420,8 +446,11 @@ def eval_metrics(ctx, pts, label):
         same = bool(np.all(a == b))
         res.count("metric/point-pair", nontrivial_key=None if same else ("m", a.tobytes(), b.tobytes()))
         try:
-            de, dp = float(pf.straight_line_length(a, b)), float(pf.periodic_straight_line_length(a, b))
-            de2, dp2 = float(pf.straight_line_length(b, a)), float(pf.periodic_straight_line_length(b, a))
+            a_, b_ = arg_forms(res, "point", a, 0, b), arg_forms(res, "point", b, 1, a)
+            de, dp = float(pf.straight_line_length(a_, b_)), float(pf.periodic_straight_line_length(a_, b_))
+            de2, dp2 = float(pf.straight_line_length(b_, a_)), float(pf.periodic_straight_line_length(b_, a_))
+            if not (np.array_equal(a_, a) and np.array_equal(b_, b)):
+                res.violation("metric-modifies-argument", "a metric modified a point passed to it", rcase)
         except Exception as e:
             res.violation("metric-crash", f"{type(e).__name__}: {e}", rcase)
             continue
